@@ -212,35 +212,35 @@ Section FPP.
   (** ** a column of the bunch-major array, restricted to its own [n] cells (the flat array goes on
       with the next column: a support hypothesis on the unrestricted function [s => D (c*n+s)] would
       force the neighbouring columns to vanish) *)
-  Definition clip (r : Z -> K) (s : Z) : K := if ((0 <=? s) && (s <? n))%Z then r s else 0.
+  Definition colclip (r : Z -> K) (s : Z) : K := if ((0 <=? s) && (s <? n))%Z then r s else 0.
 
-  Lemma clip_in r s : (0 <= s < n)%Z -> clip r s = r s.
-  Proof. intros Hs. unfold clip. destruct (Z.leb_spec 0 s); destruct (Z.ltb_spec s n); cbn [andb]; try lia. reflexivity. Qed.
+  Lemma colclip_in r s : (0 <= s < n)%Z -> colclip r s = r s.
+  Proof. intros Hs. unfold colclip. destruct (Z.leb_spec 0 s); destruct (Z.ltb_spec s n); cbn [andb]; try lia. reflexivity. Qed.
 
-  Lemma S0_clip r : S0 (clip r) = S0 r.
-  Proof. unfold S0. apply sumZ_ext. intros i Hi. apply clip_in. lia. Qed.
+  Lemma S0_colclip r : S0 (colclip r) = S0 r.
+  Proof. unfold S0. apply sumZ_ext. intros i Hi. apply colclip_in. lia. Qed.
 
-  Lemma fp_col_out_clip ip H (r : Z -> K) y :
+  Lemma fp_col_out_colclip ip H (r : Z -> K) y :
     (0 <= ip)%Z -> (forall j, (0 <= j < ip)%Z -> (0 <= fst (H (y * ip + j)%Z) < n)%Z) ->
-    fp_col_out ip H (clip r) y = fp_col_out ip H r y.
+    fp_col_out ip H (colclip r) y = fp_col_out ip H r y.
   Proof.
     intros Hip Hidx. unfold fp_col_out. f_equal. apply map_ext_in. intros j Hj.
     unfold zrange in Hj. apply in_map_iff in Hj. destruct Hj as (k & <- & Hk). apply in_seq in Hk.
-    cbv zeta. rewrite clip_in; [reflexivity|]. apply Hidx. lia.
+    cbv zeta. rewrite colclip_in; [reflexivity|]. apply Hidx. lia.
   Qed.
 
-  Lemma S0_fp_col_out_clip ip H (r : Z -> K) :
+  Lemma S0_fp_col_out_colclip ip H (r : Z -> K) :
     (0 <= ip)%Z -> (forall y j, (0 <= y < n)%Z -> (0 <= j < ip)%Z -> (0 <= fst (H (y * ip + j)%Z) < n)%Z) ->
-    S0 (fp_col_out ip H (clip r)) = S0 (fp_col_out ip H r).
+    S0 (fp_col_out ip H (colclip r)) = S0 (fp_col_out ip H r).
   Proof.
-    intros Hip Hidx. unfold S0. apply sumZ_ext. intros y Hy. apply fp_col_out_clip; [exact Hip|].
+    intros Hip Hidx. unfold S0. apply sumZ_ext. intros y Hy. apply fp_col_out_colclip; [exact Hip|].
     intros j Hj. apply Hidx; lia.
   Qed.
 
   (** C01, 3-point stencil, the whole array: every column's own cells are clear of the border rows *)
   Lemma fp3_conserves_grid_cols xs nb (D : Z -> K) :
     (2 <= n < 2 ^ 32)%Z -> (0 < xs)%Z -> (0 <= nb)%Z -> uniform -> delta <> 0 ->
-    (forall c, (0 <= c < nb * xs)%Z -> supp (clip (fun s => D (c * n + s)%Z)) 2 (n - 2)) ->
+    (forall c, (0 <= c < nb * xs)%Z -> supp (colclip (fun s => D (c * n + s)%Z)) 2 (n - 2)) ->
     sumZ 0 (Z.to_nat (nb * xs * n)) (fp_apply n xs 3 H3 D) = sumZ 0 (Z.to_nat (nb * xs * n)) D.
   Proof.
     intros Hn Hxs Hnb Hax Hd Hs.
@@ -250,8 +250,8 @@ Section FPP.
     apply sumZ_ext. intros c Hc.
     rewrite (sumZ_ext K _ _ _ (fp_col_out 3 H3 (fun s => D (c * n + s)%Z))) by (intros; ring).
     change (S0 (fp_col_out 3 H3 (fun s => D (c * n + s)%Z)) = S0 (fun s => D (c * n + s)%Z)).
-    rewrite <- S0_fp_col_out_clip by (try lia; intros; apply H3_index_range; lia).
-    rewrite <- (S0_clip (fun s => D (c * n + s)%Z)).
+    rewrite <- S0_fp_col_out_colclip by (try lia; intros; apply H3_index_range; lia).
+    rewrite <- (S0_colclip (fun s => D (c * n + s)%Z)).
     apply fp3_moment0; auto. apply Hs. lia.
   Qed.
 
@@ -488,12 +488,12 @@ Section FPP.
     rewrite (sumZ_ext K _ _ _ (fp_col_out 4 H4 (fun s => D (c * n + s)%Z))) by (intros; ring).
     apply (fp4_defect (fun s => D (c * n + s)%Z)); auto. apply Hs. lia.
   Qed.
-  Lemma sw4_clip (r : Z -> K) : (5 <= m <= n - 5)%Z -> sw4 (clip r) = sw4 r.
-  Proof. intros Hm. unfold sw4. rewrite !clip_in by lia. reflexivity. Qed.
+  Lemma sw4_colclip (r : Z -> K) : (5 <= m <= n - 5)%Z -> sw4 (colclip r) = sw4 r.
+  Proof. intros Hm. unfold sw4. rewrite !colclip_in by lia. reflexivity. Qed.
 
   Lemma fp4_defect_grid_cols xs nb (D : Z -> K) :
     dom4 -> uniform -> delta <> 0 -> (5 <= m <= n - 5)%Z -> (0 < xs)%Z -> (0 <= nb)%Z ->
-    (forall c, (0 <= c < nb * xs)%Z -> supp (clip (fun s => D (c * n + s)%Z)) 3 (n - 3)) ->
+    (forall c, (0 <= c < nb * xs)%Z -> supp (colclip (fun s => D (c * n + s)%Z)) 3 (n - 3)) ->
     sumZ 0 (Z.to_nat (nb * xs * n)) (fp_apply n xs 4 H4 D) =
     sumZ 0 (Z.to_nat (nb * xs * n)) D +
     opt dmp e1 * sumZ 0 (Z.to_nat (nb * xs)) (fun c => sw4 (fun s => D (c * n + s)%Z)).
@@ -506,8 +506,8 @@ Section FPP.
     rewrite (sumZ_ext K _ _ _ (fp_col_out 4 H4 (fun s => D (c * n + s)%Z))) by (intros; ring).
     change (S0 (fp_col_out 4 H4 (fun s => D (c * n + s)%Z)) =
             S0 (fun s => D (c * n + s)%Z) + opt dmp e1 * sw4 (fun s => D (c * n + s)%Z)).
-    rewrite <- S0_fp_col_out_clip by (try lia; intros; apply H4_index_range; (assumption || lia)).
-    rewrite <- (S0_clip (fun s => D (c * n + s)%Z)), <- (sw4_clip (fun s => D (c * n + s)%Z)) by exact Hm5.
+    rewrite <- S0_fp_col_out_colclip by (try lia; intros; apply H4_index_range; (assumption || lia)).
+    rewrite <- (S0_colclip (fun s => D (c * n + s)%Z)), <- (sw4_colclip (fun s => D (c * n + s)%Z)) by exact Hm5.
     apply fp4_defect; auto. apply Hs. lia.
   Qed.
 End FPP.
